@@ -1,8 +1,9 @@
 from ..framework import Spec
 from ..ties_bits import parts_tie
+from ..ties_sys import sys_tie
 
 SPEC = Spec(
     pid='C12',
-    coq_needs=['Base', 'Bits', 'BitsSpec', 'BitsProofs', 'Properties/C12'],
-    ties=[parts_tie()],
+    coq_needs=['Base', 'Bits', 'BitsSpec', 'BitsProofs', 'Program', 'Properties/C12'],
+    ties=[parts_tie(), sys_tie('C12', n_quick=300)],
 )
